@@ -1,0 +1,27 @@
+//go:build verif
+
+// Contracts for package serviceinfo, checked by /verif/govc. Comment-only file.
+package serviceinfo
+
+//@ func serviceinfo.ChunkReader.ReadChunk
+//@   props C15
+//@   sweep bounds,make,nilmem,panic,nooverflow
+//@   makelimit 65535
+//@   requires r.r != nil ==> hdr(len(r.key)) + len(r.key) <= len(r.rkey)
+//@   ensures @budget err == nil ==> kvsize(len(result0.Key), len(result0.Val)) <= int(size)
+//@   ensures @keyinv r.r != nil ==> hdr(len(r.key)) + len(r.key) <= len(r.rkey)
+//@   ensures @nonnil err == nil ==> result0 != nil
+//@   recvnonnil
+//@   ensures @keepreader u(err) == u(ErrSizeTooSmall) ==> r.r != nil
+
+//@ func serviceinfo.cborEncodedLen
+//@   props C15
+//@   sweep panic
+//@   requires len(b) <= 65535
+//@   ensures int(result) == (hdr(len(b)) + len(b)) % 65536
+
+//@ func serviceinfo.KV.Size
+//@   props C15
+//@   sweep nooverflow,panic
+//@   requires len(kv.Key) <= 65535 && len(kv.Val) <= 65535 && kvsize(len(kv.Key), len(kv.Val)) <= 65535
+//@   ensures int(result) == kvsize(len(kv.Key), len(kv.Val))
